@@ -18,8 +18,8 @@ def run(v):
     cov = run_cmdline_property(v, families(v.tier), "MC_CmdLine_design.cfg", signature=cmdline_sig.signature, ledger_every=(6 if v.tier == "quick" else 1),
                                driver={"defs": big, "n": 20000 if v.tier == "quick" else 300000, "maxlen": 12, "mutate": 0.8})
     # the same property on choices, optional/repeated groups and adjacent groups (GroupLine engine)
-    gfam = (D.group_family(SEED, 4, 3000) + D.alt_family(SEED + 53, 15, maxlen=4, budget=3000) + D.adj_family(SEED + 54, 12, maxlen=5, budget=3000)) if v.tier == "quick" \
-        else (D.group_family(SEED, 5, 40000) + D.alt_family(SEED + 53, 80, maxlen=5, budget=40000) + D.adj_family(SEED + 54, 45, maxlen=6, budget=40000))
+    gfam = (D.group_family(SEED, 4, 3000) + D.alt_family(SEED + 53, 15, maxlen=4, budget=3000) + D.adj_family(SEED + 54, 9, maxlen=5, budget=3000) + D.acmd_family(SEED + 55, 6, maxlen=4, budget=3000) + D.acmd_hole_defs(SEED)) if v.tier == "quick" \
+        else (D.group_family(SEED, 5, 40000) + D.alt_family(SEED + 53, 80, maxlen=5, budget=40000) + D.adj_family(SEED + 54, 45, maxlen=6, budget=40000) + D.acmd_family(SEED + 55, 30, maxlen=6, budget=40000) + D.acmd_hole_defs(SEED))
     gbig = D.alt_family(SEED + 1053, 25, budget=10**9) + D.adj_family(SEED + 1054, 18, budget=10**9)
     gcov = run_cmdline_property(v, gfam, None, replay_cfg="MC_GroupLine_replay.cfg", module="MC_GroupLine",
                                 signature=cmdline_sig.signature, ledger_every=(6 if v.tier == "quick" else 1), trace_module="GroupLineTrace", name="C05g",
